@@ -207,8 +207,12 @@ def _mk_component(sim, i, sp, real_components):
                 if k == "raise":
                     raise EXC_TYPES[sp["exc"]](sp.get("msg", "mw boom"))
                 if k == "real":
-                    return await real_components[sp["name"]].process_request(
+                    res = await real_components[sp["name"]].process_request(
                         request_url, client_ip, client_cert_fingerprint)
+                    # what the component itself answered: the text of a real component's refusal is its own business,
+                    # checks compare what the client received with this
+                    sim.log.append(("mw-result", sim.loop.time(), i, bool(res[0]), request_url, res[1]))
+                    return res
                 raise ValueError(k)
             finally:
                 sim.log.append(("mw-exit", sim.loop.time(), i))
